@@ -12,7 +12,7 @@ import subprocess
 import time
 
 ROOT = os.path.dirname(os.path.dirname(os.path.abspath(__file__)))
-SPEC_DIR = os.path.join(ROOT, "spec")
+SPEC_DIR = os.environ.get("VERIF_SPEC_DIR") or os.path.join(ROOT, "spec")
 WORK = os.path.join(ROOT, ".work")
 JARS = "/opt/veriftools/tla/tla2tools.jar:/opt/veriftools/tla/CommunityModules-deps.jar"
 
